@@ -4,7 +4,14 @@
      flow      <langid> W <xmlgen> <pool> <ops>   the code as it is      (step)
      flowfixed <langid> W <xmlgen> <pool> <ops>   the repaired code      (step_fixed)
    Answer: per op  0:<has header 0|1>:<body hex>:<tagCP>.<attrCP>.0.0  joined by '|' (indent and in_content stay 0 in WBXML output), then " S=<spec body hex> safe=<0|1>".
-   Tag tables from $C18_TABLES (same file as the C18 driver). *)
+   Tag tables from $C18_TABLES (same file as the C18 driver).
+
+   The instance with the REAL per-node WBXML encoding (Model/FlowEnc.v over Model/EncWbxml.v, tables = the extracted
+   main_btable), every language and every pool shape of the harness (attributes, literal tags, CDATA, embedded trees):
+     flowenc      <langid> W <xmlgen> <pool> <ops>     the code as it is      (w_step)
+     flowencfixed <langid> W <xmlgen> <pool> <ops>     the repaired code      (w_step_fixed)
+   Answer: per op  <err>:<has header>:<body hex>:<tagCP>.<attrCP>.0.0.<current tag page,token or ->  then " S=<spec body hex>";
+   err = the error code EncWbxml gives for that operation on the current context (0 = OK; the flow model treats a failing encode as a no-op). *)
 open Model
 open Conv
 
@@ -78,6 +85,98 @@ let run_flow fixed lang pool_s ops_s =
       print_endline (Buffer.contents b)
     with Unsupported | Not_found | Invalid_argument _ | Failure _ -> print_endline "skip")
 
+(* ---- the real encoder ---- *)
+
+let nth_row (o : 'a list option) (i : int) : 'a =
+  match o with Some l -> (match List.nth_opt l i with Some r -> r | None -> raise Unsupported) | None -> raise Unsupported
+
+let parse_wpool (lang : blang) (spec : string) : node array =
+  let parse_one part =
+    let toks = Array.of_list (String.split_on_char '.' part) in
+    let pos = ref 0 in
+    let peek () = if !pos < Array.length toks then toks.(!pos) else "" in
+    let rest t = String.sub t 1 (String.length t - 1) in
+    let rec kids (l : blang) : node list =
+      if peek () = "(" then begin
+        incr pos;
+        let acc = ref [] in
+        while !pos < Array.length toks && peek () <> ")" do acc := node l :: !acc done;
+        incr pos;
+        List.rev !acc
+      end else []
+    and node (l : blang) : node =
+      let t = toks.(!pos) in
+      incr pos;
+      if t = "" then raise Unsupported;
+      match t.[0] with
+      | 'x' -> NText (bytes_of_hex (rest t))
+      | 'c' -> NCData (kids l)
+      | 't' ->
+        let lid = n_of_int (int_of_string (rest t)) in
+        (match find_lang main_btable lid with
+         | None -> raise Unsupported
+         | Some sl -> (match kids sl with [r] -> NTree (lid, [r]) | _ -> raise Unsupported))
+      | 'e' | 'l' ->
+        let tag =
+          if t.[0] = 'e' then
+            let r = nth_row l.bl_tags (int_of_string (rest t)) in TagTok (r.bt_page, r.bt_tok, r.bt_opts, r.bt_name)
+          else TagLit (bytes_of_hex (rest t)) in
+        let attrs = ref [] in
+        while peek () <> "" && (peek ()).[0] = 'a' do
+          let a = peek () in
+          incr pos;
+          let e = String.index a '=' in
+          let r = nth_row l.bl_attrs (int_of_string (String.sub a 1 (e - 1))) in
+          let v = bytes_of_hex (String.sub a (e + 1) (String.length a - e - 1)) in
+          attrs := { at_name = AttrTok (r.ba_page, r.ba_tok, r.ba_name, r.ba_value); at_value = v } :: !attrs
+        done;
+        let ch = kids l in
+        NElt (tag, List.rev !attrs, ch)
+      | _ -> raise Unsupported in
+    node lang in
+  Array.of_list (List.map parse_one (String.split_on_char '/' spec))
+
+let run_flowenc fixed lang xmlgen pool_s ops_s =
+  match find_lang main_btable (n_of_int lang) with
+  | None -> print_endline "skip"
+  | Some l ->
+    (try
+      let pool = parse_wpool l pool_s in
+      let strip = xmlgen >= 10 in
+      let e = flow_env l strip strip (n_of_int 3) in
+      let ops = List.map (fun o ->
+          let k () = let e = try String.index o ',' with Not_found -> String.length o in int_of_string (String.sub o 1 (e - 1)) in
+          let c () = let e = String.index o ',' in String.sub o (e + 1) (String.length o - e - 1) <> "0" in
+          match o.[0] with
+          | 'N' -> Node pool.(k ())
+          | 'S' -> EltStart (pool.(k ()), c ())
+          | 'F' -> EltEnd (pool.(k ()), c ())
+          | 'D' -> DeleteLast
+          | 'G' -> GetOutput
+          | _ -> raise Unsupported) (if ops_s = "" then [] else String.split_on_char ';' ops_s) in
+      let step = if fixed then w_step_fixed main_btable e else w_step main_btable e in
+      let s = ref w_init in
+      let b = Buffer.create 256 in
+      List.iteri (fun i o ->
+          let err = (match o with
+              | Node n -> (match parse_node main_btable e None n (st_of !s.cx) with EOk _ -> 0 | EErr c -> int_of_n c)
+              | EltStart (NElt (tag, attrs, _), c) ->
+                (match enc_element_start e (st_of !s.cx) tag attrs c with EOk _ -> 0 | EErr c -> int_of_n c)
+              | EltStart (_, _) | EltEnd (NText _, _) | EltEnd (NCData _, _) | EltEnd (NPi, _) | EltEnd (NTree (_, _), _) -> raise Unsupported
+              | _ -> 0) in
+          s := step !s o;
+          if i > 0 then Buffer.add_char b '|';
+          let cx = !s.cx in
+          Buffer.add_string b (Printf.sprintf "%d:%d:%s:%d.%d.0.0.%s" err (match !s.hdr with Some _ -> 1 | None -> 0)
+                                 (hex_of_bytes !s.out) (int_of_n cx.w_tagcp) (int_of_n cx.w_attrcp)
+                                 (match cx.w_cur_tag with Some ((p, t), _) -> Printf.sprintf "%d,%d" (int_of_n p) (int_of_n t) | None -> "-"))) ops;
+      let spec = w_spec_output main_btable e ops in
+      let hl = (match !s.hdr with Some h -> List.length h | None -> 0) in
+      let rec drop n l = if n <= 0 then l else match l with [] -> [] | _ :: r -> drop (n - 1) r in
+      Buffer.add_string b (Printf.sprintf " S=%s" (hex_of_bytes (drop hl spec)));
+      print_endline (Buffer.contents b)
+    with Unsupported | Not_found | Invalid_argument _ | Failure _ -> print_endline "skip")
+
 let () =
   load_tables ();
   try while true do
@@ -86,5 +185,7 @@ let () =
      | ["flow"; lg; "W"; _; pool; ops] -> run_flow false (int_of_string lg) pool ops
      | ["flowfixed"; lg; "W"; _; pool; ops] -> run_flow true (int_of_string lg) pool ops
      | ["flow"; lg; "W"; _; pool] -> run_flow false (int_of_string lg) pool ""
+     | ["flowenc"; lg; "W"; g; pool; ops] -> run_flowenc false (int_of_string lg) (int_of_string g) pool ops
+     | ["flowencfixed"; lg; "W"; g; pool; ops] -> run_flowenc true (int_of_string lg) (int_of_string g) pool ops
      | _ -> print_endline "skip")
   done with End_of_file -> ()
